@@ -13,10 +13,10 @@ Open Scope string_scope.
 Definition qfres (r : pres) : Prop := is_qf (snd r) = true.
 
 Lemma sym_range_qf (sub : list (var * var)) :
-  range_ok is_qf (map (fun p => (fst p, TSym (fst (snd p)) (snd (snd p)))) sub).
+  range_ok is_qf (sub_terms sub).
 Proof.
   induction sub as [|[k [fn fty]] sub IH]; intros v r E; [discriminate|].
-  cbn [map vlookup fst snd] in E. destruct (var_eqb k v).
+  unfold sub_terms in *. cbn [map vlookup fst snd] in E. destruct (var_eqb k v).
   - injection E as <-. reflexivity.
   - eapply IH; eauto.
 Qed.
